@@ -23,7 +23,8 @@ Record rbuild := mkRB {
   rb_calls : list (list nat * rres);
   rb_out : rout;
   rb_snap : bool }.
-Inductive ritem := ROp (o : rop) | RBuild (b : rbuild).
+(* RCtx c : from here on the chain context answers c (address id -> UTxO indices) *)
+Inductive ritem := ROp (o : rop) | RBuild (b : rbuild) | RCtx (c : list (N * list nat)).
 Record rcase := mkRC { rc_utxos : list utxo; rc_ctx : list (N * list nat); rc_items : list ritem }.
 
 (* an index outside the table (an object the driver does not know) resolves to a UTxO equal to nothing else *)
@@ -116,6 +117,7 @@ Fixpoint corr_items (c : ctx) (tbl : list utxo) (st : bstate) (its : list ritem)
   | ROp o :: r => corr_items c tbl (bstep st (res_op tbl o)) r
   | RBuild b :: r =>
       corr_build c tbl st b && corr_items c tbl (state_after st (model_build c tbl st b)) r
+  | RCtx c' :: r => corr_items (res_ctx tbl c') tbl st r
   end.
 
 Definition c09_corr (k : rcase) : bool :=
@@ -154,10 +156,17 @@ Definition oracle_build (c : ctx) (tbl : list utxo) (b : rbuild) : bool :=
   | RErr k _ => implb (conflict st) (k =? 0)                            (* refusal is the builder exception *)
   end.
 
+(* every build is judged against the context in force when it ran *)
+Fixpoint oracle_items (c : ctx) (tbl : list utxo) (its : list ritem) : bool :=
+  match its with
+  | [] => true
+  | ROp _ :: r => oracle_items c tbl r
+  | RBuild b :: r => oracle_build c tbl b && oracle_items c tbl r
+  | RCtx c' :: r => oracle_items (res_ctx tbl c') tbl r
+  end.
 Definition c09_oracle (k : rcase) : bool :=
   let tbl := rc_utxos k in
-  let c := res_ctx tbl (rc_ctx k) in
-  forallb (fun it => match it with ROp _ => true | RBuild b => oracle_build c tbl b end) (rc_items k).
+  oracle_items (res_ctx tbl (rc_ctx k)) tbl (rc_items k).
 
 (* ---------- the run-time checks mean what the theorems assume ---------- *)
 Lemma remove1_perm u l : forall l', remove1 u l = Some l' -> Permutation l (u :: l').
